@@ -3,13 +3,19 @@
    The model (Client/Updater.v) runs on the shared store model Client/Store.v; all theorems hold for
    every value type V, every state satisfying the invariant UInv - which every state reachable from
    a store without watchers does (C15_init, C15_reachable) - and every sequence of events
-   (installs by polls, lookups, registrations, first reads, builder returns, Get begin/end, Err) of
-   any number of updaters on any secrets, i.e. every interleaving at the granularity of the store
-   lock and of u.mu.
+   (installs by polls, lookups, LATE lookup flights, registrations, first reads, builder returns, Get
+   begin/end, Err) of any number of updaters on any secrets, i.e. every interleaving at the
+   granularity of the store lock and of u.mu.
+
+   Lookups: the unknown-name check of LookupSecret / lookupWatcher and the locked part of the flight
+   are NOT assumed to be one step any more.  The event [ELate n ans now] is the locked part of a
+   flight (store.go:400-414, Store.lookup_finish = the code after the F8 repair 104da0c) finishing in
+   ANY state, with any service answer; every theorem below quantifies over event lists that may
+   contain it anywhere.  C15_late_flight_keeps / C15_late_flight_on_watched say what the repair buys;
+   ex_f8_legacy_refuted shows the invariant's conclusion failing for the unrepaired step.
 
    Atomicity assumptions (stated, not proved; data-race freedom is tested with -race):
-   Updater.Get holds u.mu for the whole call; each store step runs under Store.active's mutex;
-   LookupSecret's unknown-name check and the start of its flight are one step. *)
+   Updater.Get holds u.mu for the whole call; each store step runs under Store.active's mutex. *)
 From Coq Require Import List Bool NArith ZArith Arith.
 Import ListNotations.
 From Setec Require Import Base.SMap Client.Store Client.StoreInv Client.Updater Client.UpdaterProofs.
@@ -115,6 +121,31 @@ Theorem C15_registration_race : forall (s : ustate V) n cl s1 evs now,
       flag_of (st (exec s3 evs2)) i = true \/ useen u4 = cur (st (exec s3 evs2)) (un u4).
 Proof. exact (@registration_race V). Qed.
 
+(* ---- late flights (F8).  The locked part of a lookup flight that finishes on a name which by then
+   has a value (another lookup installed it after this flight's caller found it missing) returns the
+   handle and changes NOTHING else: not the map (so neither value nor version of any name), not a
+   single watcher flag, no updater, no builder call.  Hence no install happens that the watchers of
+   the name are not told about - the next poll brings the newer version and notifies (C15_get_newest
+   with an event list containing the late flight anywhere). *)
+Theorem C15_late_flight_keeps : forall (s : ustate V) n v b now e, entry (st s) n = Some e ->
+  let r := step s (ELate n (Some (v, b)) now) in
+  snd r = OOk /\ m (st (fst r)) = m (st s) /\ ws (st (fst r)) = ws (st s) /\
+  us (fst r) = us s /\ blog (fst r) = blog s /\ In n (hs (st (fst r))).
+Proof. exact (@late_keeps V). Qed.
+
+(* every watched name has a value in every reachable state, so this covers every updater's secret *)
+Theorem C15_late_flight_on_watched : forall (s : ustate V) i u v b now,
+  UInv s -> nth_error (us s) i = Some u ->
+  let s' := fst (step s (ELate (un u) (Some (v, b)) now)) in
+  m (st s') = m (st s) /\ cur (st s') (un u) = cur (st s) (un u) /\
+  (forall j, flag_of (st s') j = flag_of (st s) j) /\ us s' = us s /\ blog s' = blog s.
+Proof. exact (@late_on_watched V). Qed.
+
+(* a flight that is not overtaken is the atomic lookup step (so ELookup is a special case of ELate) *)
+Theorem C15_late_is_lookup : forall (s : ustate V) n v b now, known (st s) n = false -> allow (st s) = true ->
+  step s (ELate n (Some (v, b)) now) = step s (ELookup n v b now).
+Proof. exact (@late_is_lookup V). Qed.
+
 End C15.
 
 Print Assumptions C15_init.
@@ -126,6 +157,9 @@ Print Assumptions C15_rebuild_only_if_installed.
 Print Assumptions C15_failure_keeps_old.
 Print Assumptions C15_closed_exactly_once.
 Print Assumptions C15_registration_race.
+Print Assumptions C15_late_flight_keeps.
+Print Assumptions C15_late_flight_on_watched.
+Print Assumptions C15_late_is_lookup.
 
 (* ---- non-vacuity: a concrete history.  Secret "a" (version 1, bytes 10); two updaters on it, the
    second registered BEFORE an install and reading AFTER it (the race); three installs coalesce. *)
@@ -183,3 +217,62 @@ Example ex_bad_order_violates :
   flag_of (st s_inst) 0 = false /\ option_map (@ufrom N) (nth_error (us s_inst) 0) = Some (Some (1, 10))
   /\ cur (st s_inst) ex_a = Some (2, 20).
 Proof. vm_compute. repeat split. Qed.
+
+(* ---- F8, the lost update behind the former atomicity assumption, as a history of the model.
+   Store with lookups allowed, "x" unknown.  Caller A finds "x" unknown (no event: nothing changes) and
+   is delayed.  B = NewUpdater("x"): complete lookup (version 1, bytes 11), registration, first read,
+   builder.  The service activates version 2 (bytes 22).  A's flight now runs its locked part. *)
+Definition ex_x : name := [120].
+Definition ex_t0 : ustate N := US (ST (upd ex_a (Some (CE 1 10 0%Z true)) []) [] [] true 0%Z) [] [].
+Definition ex_f8_prefix : list (event N) := [ ELookup ex_x 1 11 0%Z; EReg ex_x true; ERead 0 0%Z; EBuilt 0 true ].
+
+(* UNREPAIRED step (unconditional install, nobody notified), then a poll that finds nothing changed
+   (the store already holds version 2): slot empty, no error, value built from (1, 11), store serves
+   (2, 22) - all three disjuncts of C15_inv's conclusion are false, and Get returns the stale value
+   without calling the builder.  The legacy step is therefore NOT a step of any model satisfying C15_inv. *)
+Example ex_f8_legacy_refuted :
+  let s := exec ex_t0 ex_f8_prefix in
+  let s_late := late_legacy s ex_x 2 22 0%Z in
+  let s_poll := exec s_late [EApply []] in
+  flag_of (st s_poll) 0 = false
+  /\ option_map (fun u => (uph u, upend u, uerr u, ufrom u)) (nth_error (us s_poll) 0) = Some (PLive, None, false, Some (1, 11))
+  /\ cur (st s_poll) ex_x = Some (2, 22)
+  /\ snd (get s_poll 0 0%Z true) = OVal 0 false
+  /\ blog (fst (get s_poll 0 0%Z true)) = [(0%nat, 0%nat, 11, true)].
+Proof. vm_compute. repeat split. Qed.
+
+(* REPAIRED step on the same history: the entry is kept (the store still serves (1, 11), which is what
+   the updater's value was built from); the poll that follows installs version 2 WITH a notification,
+   and the next Get rebuilds from (2, 22) - C15_get_newest at work across a late flight. *)
+Example ex_f8_repaired :
+  let s := exec ex_t0 ex_f8_prefix in
+  let s_late := exec s [ELate ex_x (Some (2, 22)) 0%Z] in
+  let s_poll := exec s_late [EApply [(ex_x, Install 2 22)]] in
+  cur (st s_late) ex_x = Some (1, 11) /\ flag_of (st s_late) 0 = false
+  /\ flag_of (st s_poll) 0 = true /\ cur (st s_poll) ex_x = Some (2, 22)
+  /\ snd (get s_poll 0 0%Z true) = OVal 1 false
+  /\ blog (fst (get s_poll 0 0%Z true)) = [(0%nat, 0%nat, 11, true); (0%nat, 1%nat, 22, true)]
+  /\ last_install ex_x [ELate ex_x (Some (2, 22)) 0%Z; EApply [(ex_x, Install 2 22)]] None = Some (2, 22)
+  /\ quiet 0 [ELate ex_x (Some (2, 22)) 0%Z; EApply [(ex_x, Install 2 22)]].
+Proof.
+  vm_compute. repeat split. intros e [<-|[<-|[]]]; reflexivity.
+Qed.
+
+(* the same, literally against C15_inv: the state reached with the unrepaired step does not satisfy
+   UInv (so no proof of [step_UInv] could have covered that step) *)
+Example ex_f8_legacy_not_UInv :
+  ~ UInv (exec (late_legacy (exec ex_t0 ex_f8_prefix) ex_x 2 22 0%Z) [EApply []]).
+Proof.
+  intros H.
+  set (s := exec (late_legacy (exec ex_t0 ex_f8_prefix) ex_x 2 22 0%Z) [EApply []]) in *.
+  assert (E : exists u, nth_error (us s) 0 = Some u) by (vm_compute; eauto).
+  destruct E as (u & Hu).
+  assert (F : (uph u, upend u, uerr u, ufrom u, useen u) = (PLive, None, false, Some (1, 11), Some (1, 11))
+              /\ un u = ex_x /\ flag_of (st s) 0 = false /\ cur (st s) ex_x = Some (2, 22)).
+  { vm_compute in Hu. injection Hu as <-. vm_compute. repeat split. }
+  destruct F as (F1 & F2 & F3 & F4). injection F1 as P Px Er Fr Sn.
+  destruct (C15_inv N s 0 u H Hu P Px) as (_ & [A|[(_ & A)|(A & _)]]).
+  - rewrite F3 in A. discriminate.
+  - rewrite F2, F4, Fr in A. discriminate.
+  - rewrite Er in A. discriminate.
+Qed.
